@@ -258,20 +258,7 @@ callee('m:addClockable', args=['obj'], modifies=['el:clockables', 'len:clockable
 callee('f:getObjectClockDriver!abs', args=['obj'], returns=True)
 
 _STRICT = lambda hi: 'forall(lambda a, b: implies(0 <= a and a < b and b < %s, not dep(self.propagatables[b], self.propagatables[a])))' % hi
-hfunc(SIMF, 'Simulator.topologicalSort', ['self'], props=('C04',),
-      uses=['m:findFirstDependentPosition', 'm:allLeaves', 'm:isClockable', 'm:isPropagatable', 'm:getOrCreateClockDriverSimulator', 'm:addClockable', 'f:getObjectClockDriver'],
-      modifies=['len:propagatables', 'el:propagatables', 'has:clockDrivers', 'val:clockDrivers', 'el:clockables', 'len:clockables'],
-      raises_only_when='True',
-      invariants={  # first loop: every propagatable leaf seen so far has been appended
-                  0: 'len(self.propagatables) >= 0 and forall(lambda k: implies(0 <= k and k < _i0 and propagatable(leaves[k]), '
-                     'exists(lambda j: 0 <= j and j < len(self.propagatables) and self.propagatables[j] == leaves[k])))',
-                  # while: a pass that made no change leaves the list sorted along dep; exchanges keep every block in the list
-                  1: 'implies(not anyChange, %s) and %s' % (_STRICT('len(self.propagatables)'), _COVER('self.propagatables')),
-                  # for: positions below i already checked in this pass (no exchange happened so far)
-                  2: 'implies(not anyChange, %s) and %s' % (_STRICT('_i2'), _COVER('self.propagatables'))},
-      # normal return => every block sits after everything it depends on (strictly; a block reading its own output is not excluded: see known finding),
-      # and every propagatable leaf is in the list
-      ensures=[_STRICT('len(self.propagatables)'), _COVER('self.propagatables')])
+# (the contract of Simulator.topologicalSort is stated once, at the end of this file, together with the registration clauses)
 
 
 # ------------------------------------------------------------------------------------------------- C15
@@ -419,3 +406,62 @@ hfunc(WF, 'Waveform.clear', ['self'], props=('C15',), refs=['self'],
       ensures=['forall(lambda j: implies(0 <= j and j < len(%s), len(items(self.data[%s[j]])) == 0))' % (_DK, _DK),
                'forall(lambda i, j: implies(0 <= i and i < j and j < len(%s), self.data[%s[i]] != self.data[%s[j]]))' % (_DK, _DK, _DK),
                'forall(lambda k: (k in self.data) == old(k in self.data))'])
+
+
+# ------------------------------------------------------------------------------------------------- C05 / C10: registration of sequential blocks
+_CDS_INIT = ['self.driver == drv and len(self.clockables) == 0', 'forall(lambda o: implies(o != self, o.driver == old(o.driver) and len(o.clockables) == old(len(o.clockables))))',
+             'forall(lambda o, j: implies(o != self, o.clockables[j] == old(o.clockables[j])))']
+hfunc(SIMF, 'ClockDriverSimulator.__init__', ['self', 'drv'], props=('C05', 'C10'), modifies=['f:driver', 'len:clockables'], ensures=_CDS_INIT[:2])
+callee('new:ClockDriverSimulator/1', args=['drv'], modifies=['f:driver', 'len:clockables'], ensures=_CDS_INIT[:2])
+_ADDC = ['len(self.clockables) == old(len(self.clockables)) + 1 and self.clockables[old(len(self.clockables))] == obj',
+         'forall(lambda j: implies(0 <= j and j < old(len(self.clockables)), self.clockables[j] == old(self.clockables[j])))',
+         'forall(lambda o: implies(o != self, len(o.clockables) == old(len(o.clockables))))',
+         'forall(lambda o, j: implies(o != self, o.clockables[j] == old(o.clockables[j])))']
+hfunc(SIMF, 'ClockDriverSimulator.addClockable', ['self', 'obj'], props=('C05', 'C10'), modifies=['len:clockables', 'el:clockables'], ensures=_ADDC)
+_GOC = ['drv in self.clockDrivers and result == self.clockDrivers[drv] and result != None',
+        # an existing entry is returned as it is; a missing one is created with an empty list, as a new object
+        'implies(old(drv in self.clockDrivers), result == old(self.clockDrivers[drv]) and forall(lambda o: len(o.clockables) == old(len(o.clockables))))',
+        'implies(not old(drv in self.clockDrivers), not old(result.__alloc) and len(result.clockables) == 0 and forall(lambda o: implies(o != result, len(o.clockables) == old(len(o.clockables)))))',
+        'forall(lambda d: implies(d != drv, (d in self.clockDrivers) == old(d in self.clockDrivers) and implies(d in self.clockDrivers, self.clockDrivers[d] == old(self.clockDrivers[d]))))',
+        'forall(lambda o: implies(old(o.__alloc), o.__alloc))', 'result.__alloc',
+        'forall(lambda o, j: implies(old(o.__alloc), o.clockables[j] == old(o.clockables[j])))']
+hfunc(SIMF, 'Simulator.getOrCreateClockDriverSimulator', ['self', 'drv'], props=('C05', 'C10'), refs=['self', 'drv'], uses=['new:ClockDriverSimulator/1'],
+      requires=['forall(lambda d: implies(d in self.clockDrivers, self.clockDrivers[d] != None and self.clockDrivers[d].__alloc))'],
+      modifies=['has:clockDrivers', 'val:clockDrivers', 'f:driver', 'len:clockables', 'f:#alloc'], ensures=_GOC)
+
+
+# topologicalSort, complete contract: sortedness + coverage (as above) + registration of every sequential leaf under the simulator of
+# the NEAREST clock driver (C10: "blocks inherit the nearest ancestor's clock driver"; C05: the domain lists are disjoint, duplicate-free
+# and consistent, which _clk_cycle requires)
+callee('m:isClockable', args=[], returns=True, ensures=['(result != 0) == clockable(self)'])
+callee('m:getOrCreateClockDriverSimulator', args=['drv'], returns=True,
+       requires=['forall(lambda d: implies(d in self.clockDrivers, self.clockDrivers[d] != None and self.clockDrivers[d].__alloc))'],
+       modifies=['has:clockDrivers', 'val:clockDrivers', 'f:driver', 'len:clockables', 'f:#alloc'], ensures=_GOC)
+callee('m:addClockable', args=['obj'], modifies=['el:clockables', 'len:clockables'], ensures=_ADDC)
+_DISTINCT_L = lambda lst: 'forall(lambda i, j: implies(0 <= i and i < j and j < len(%s), %s[i] != %s[j]))' % (lst, lst, lst)
+callee('m:allLeaves', args=[], returns='list',
+       ensures=[_COVER('result'), 'forall(lambda v: implies(clockable(v), exists(lambda k: 0 <= k and k < len(result) and result[k] == v)))', _DISTINCT_L('result')])
+_CDm = 'self.clockDrivers'
+_REG = lambda v: '(nearest(%s) in %s and exists(lambda j: 0 <= j and j < len(%s[nearest(%s)].clockables) and %s[nearest(%s)].clockables[j] == %s))' % (v, _CDm, _CDm, v, _CDm, v, v)
+_R1 = lambda hi: 'forall(lambda k: implies(0 <= k and k < %s and clockable(leaves[k]), %s))' % (hi, _REG('leaves[k]'))
+# every listed block sits under its nearest driver; the leaves not visited yet are in no list (purely universal: an existential here
+# would feed the one of R1 and send the instantiation into a loop)
+_R2 = lambda hi: ('forall(lambda d, j: implies(d in %s and 0 <= j and j < len(%s[d].clockables), nearest(%s[d].clockables[j]) == d)) and '
+                  'forall(lambda d, j, k: implies(d in %s and 0 <= j and j < len(%s[d].clockables) and %s <= k and k < len(leaves), %s[d].clockables[j] != leaves[k]))'
+                  % (_CDm, _CDm, _CDm, _CDm, _CDm, hi, _CDm))
+_R2E = 'forall(lambda d, j: implies(d in %s and 0 <= j and j < len(%s[d].clockables), nearest(%s[d].clockables[j]) == d))' % (_CDm, _CDm, _CDm)
+_R3 = ('forall(lambda d: implies(d in %s, %s[d] != None and %s[d].__alloc)) and forall(lambda d, e: implies(d in %s and e in %s and d != e, %s[d] != %s[e]))'
+       % (_CDm, _CDm, _CDm, _CDm, _CDm, _CDm, _CDm))
+_R4 = 'forall(lambda d, i, j: implies(d in %s and 0 <= i and i < j and j < len(%s[d].clockables), %s[d].clockables[i] != %s[d].clockables[j]))' % (_CDm, _CDm, _CDm, _CDm)
+hfunc(SIMF, 'Simulator.topologicalSort', ['self'], props=('C04', 'C05', 'C10'), refs=['self'],
+      uses=['m:findFirstDependentPosition', 'm:allLeaves', 'm:isClockable', 'm:isPropagatable', 'm:getOrCreateClockDriverSimulator', 'm:addClockable', 'f:getObjectClockDriver'],
+      modifies=['len:propagatables', 'el:propagatables', 'has:clockDrivers', 'val:clockDrivers', 'el:clockables', 'len:clockables', 'f:driver', 'f:#alloc'],
+      raises_only_when='True',
+      invariants={0: 'len(self.propagatables) >= 0 and forall(lambda k: implies(0 <= k and k < _i0 and propagatable(leaves[k]), '
+                     'exists(lambda j: 0 <= j and j < len(self.propagatables) and self.propagatables[j] == leaves[k]))) and '
+                     '%s and %s and %s and %s and forall(lambda o: implies(old(o.__alloc), o.__alloc))' % (_R1('_i0'), _R2('_i0'), _R3, _R4),
+                  1: 'implies(not anyChange, %s) and %s' % (_STRICT('len(self.propagatables)'), _COVER('self.propagatables')),
+                  2: 'implies(not anyChange, %s) and %s' % (_STRICT('_i2'), _COVER('self.propagatables'))},
+      ensures=[_STRICT('len(self.propagatables)'), _COVER('self.propagatables'),
+               # every sequential leaf is registered under the simulator of its nearest clock driver, and nowhere else; the domain lists are duplicate-free
+               'forall(lambda v: implies(clockable(v), %s))' % _REG('v'), _R2E, _R3, _R4])
